@@ -232,6 +232,8 @@ impl<const BITS: usize, const LIMBS: usize> Uint<BITS, LIMBS> {
     #[must_use]
     #[track_caller]
     pub const fn from_limbs(limbs: [u64; LIMBS]) -> Self {
+        // Evaluating `Self::LIMBS` asserts that `LIMBS` is correct.
+        let _ = Self::LIMBS;
         if Self::SHOULD_MASK {
             // FEATURE: (BLOCKED) Add `<{BITS}>` to the type when Display works in const fn.
             assert!(
@@ -245,6 +247,8 @@ impl<const BITS: usize, const LIMBS: usize> Uint<BITS, LIMBS> {
     #[inline(always)]
     #[must_use]
     const fn from_limbs_unmasked(limbs: [u64; LIMBS]) -> Self {
+        // Evaluating `Self::LIMBS` asserts that `LIMBS` is correct.
+        let _ = Self::LIMBS;
         Self { limbs }.masked()
     }
 
